@@ -39,6 +39,31 @@ Lemma src_stage_train_noninterference orc r32 s1 s2 : same_except_masked s1 s2 -
   src_stage_train orc r32 s1 = src_stage_train orc r32 s2.
 Proof. intros H. rewrite !src_stage_train_is_model. now rewrite (train_sdc_noninterference orc r32 s1 s2 H). Qed.
 
+(* the same for SparseDrugComboInteraction: (single-effect lookup, wrapped object) after train_model.main's training call *)
+Definition src_stage_train_int (orc : oracle) (r32 : Qc -> oval) (arity : nat) (rows : list trow) : result (lookup * legacy) :=
+  match train_input rows with
+  | Some o => SrcTrain.src_add_observations (lookup * legacy)
+                (fun self d => SrcTrain.src_int_add_observations orc r32 arity (fst self) (snd self) d) ([], legacy_of []) o
+  | None => Ok ([], legacy_of [])
+  end.
+
+Lemma src_stage_train_int_is_model orc r32 arity rows :
+  src_stage_train_int orc r32 arity rows
+  = dor s <- train_int orc r32 true true true arity rows; Ok (i_lookup s, legacy_of (i_train s)).
+Proof.
+  unfold src_stage_train_int, train_int. destruct (train_input rows) as [o|]; [|reflexivity].
+  exact (C04Source.src_int_add_is_model orc r32 arity istate0 o).
+Qed.
+
+(* ... so whatever the interaction sampler and its predictions compute from the trained object (its Gibbs blocks read the wrapped
+   lists, predict_viability the lookup frozen here) is computed from equal inputs *)
+Lemma src_stage_train_int_noninterference orc r32 arity s1 s2 : same_except_masked s1 s2 ->
+  src_stage_train_int orc r32 arity s1 = src_stage_train_int orc r32 arity s2.
+Proof.
+  intros H. rewrite !src_stage_train_int_is_model.
+  now rewrite (train_int_noninterference orc r32 true true true arity s1 s2 H).
+Qed.
+
 (* ---- the sampler: the translated mcmc_step (its order of the thirteen block calls) with ANY block runner that is given
    the stored data - in particular C08's translated blocks `C08SourceObj.src_run flags g d orc` ---- *)
 Definition legacy_data (w : legacy) : option Gibbs.data :=
